@@ -22,6 +22,7 @@ class Boundary(object):
         self.skip_solve = False        # translation-validation mode: never call the solver
         self.fault = None              # callable(rec, inner_index) -> None | "none" | "raise" | "inaccurate"
         self.after_generate = None     # callable(wrapper, rec)
+        self.after_heuristic = None    # callable(wrapper, rec, weight): translation validation of the heuristic objective
         self._orig = {}
 
     def install(self):
@@ -143,7 +144,10 @@ class Boundary(object):
             if mon.cur is not None:
                 mon.cur["heuristic_calls"] += 1
                 mon.cur.setdefault("weights", []).append(np.array(weight, dtype=float, copy=True))
-            return o_heur(w, weight, *a, **kw)
+            out = o_heur(w, weight, *a, **kw)
+            if mon.after_heuristic is not None and mon.cur is not None:
+                mon.after_heuristic(w, mon.cur, np.array(weight, dtype=float, copy=True))
+            return out
 
         cls.set_main_variables = set_main_variables
         cls.send_constraint_to_solver = send_constraint_to_solver
